@@ -141,10 +141,34 @@ class Facts:
         d = self.dispatchers()
         return max(d, key=lambda x: len(x[1].handled()))
 
-    def dispatch_loops(self) -> List[Tuple[Func, ast.stmt]]:
-        """Loops (in any function) whose body calls a dispatcher directly."""
-        if self._loops is None:
+    def dispatch_wrappers(self) -> List[Func]:
+        """Methods that only forward their own parameters to a dispatcher (e.g. a `_run_opcode(op, arg, frame)`
+        that wraps the dispatcher call in the error-conversion try).  A wrapper stands for the dispatcher in
+        every rule about run loops."""
+        if getattr(self, "_wrappers", None) is None:
             disp = {id(f) for f, _ in self.dispatchers()}
+            cg = self.ctx.cg
+            out = []
+            for f in self.t.funcs:
+                if id(f) in disp or f.cls is None:
+                    continue
+                ps = set(f.params())
+                for cs in cg.sites_of.get(id(f), []):
+                    if any(id(tg) in disp for tg in cs.targets) and cs.call.args and all(isinstance(a, ast.Name) and a.id in ps for a in cs.call.args):
+                        # not itself a loop around the call
+                        if not any(isinstance(p, (ast.While, ast.For)) for p in _parents(cs.call)):
+                            out.append(f)
+                            break
+            self._wrappers = out
+        return self._wrappers
+
+    def dispatch_entry_ids(self) -> Set[int]:
+        return {id(f) for f, _ in self.dispatchers()} | {id(f) for f in self.dispatch_wrappers()}
+
+    def dispatch_loops(self) -> List[Tuple[Func, ast.stmt]]:
+        """Loops (in any function) whose body calls a dispatcher directly or through a wrapper."""
+        if self._loops is None:
+            disp = self.dispatch_entry_ids()
             cg = self.ctx.cg
             out = []
             for f in self.t.funcs:
